@@ -19,7 +19,8 @@ From ZV Require Import Base.Bytes Base.Res.
 
 (* ---- the recorded history ---- *)
 Inductive okind := OKCall | OKFlags | OKNoReply.          (* m/p | f | n *)
-Inductive wev := WPend (n : nat) | WDone (n : nat) | WFail (n : nat).   (* sendmsg: Pending / accepted / failed; n = receivers active *)
+(* sendmsg: Pending / returned Ok / failed / the bytes went out but sendmsg has not returned yet; n = receivers active *)
+Inductive wev := WPend (n : nat) | WDone (n : nat) | WFail (n : nat) | WLate (n : nat).
 Inductive ioclass := IoEof | IoPipe | IoOther.
 Inductive pres :=
   | PPending | PNone | POk (k : nat) (own : bool) | PMErr (k : nat) (own : bool) | PIo (e : ioclass)
@@ -69,6 +70,7 @@ Definition mem_nat (k : nat) (l : list nat) : bool := existsb (Nat.eqb k) l.
 Definition is_done (c : cinfo) : bool := match ci_done c with Some _ => true | None => false end.
 
 Definition has_wdone (ws : list wev) : bool := existsb (fun w => match w with WDone _ => true | _ => false end) ws.
+Definition has_wlate (ws : list wev) : bool := existsb (fun w => match w with WLate _ => true | _ => false end) ws.
 Definition has_wfail (ws : list wev) : bool := existsb (fun w => match w with WFail _ => true | _ => false end) ws.
 
 (* is this result acceptable at the moment it is returned? *)
@@ -92,7 +94,7 @@ Definition walk1 (tmo : bool) (st : ost) (o : oline) : ost :=
       | None => {| os_calls := os_calls st; os_fail_sent := os_fail_sent st; os_fail_read := os_fail_read st; os_bad := true |}
       | Some c =>
           let ok := result_ok tmo st c ws r && (negb (is_done c) || match r with PAlready => true | _ => false end) in
-          let c' := {| ci_kind := ci_kind c; ci_wfail := ci_wfail c; ci_written := ci_written c || has_wdone ws;
+          let c' := {| ci_kind := ci_kind c; ci_wfail := ci_wfail c; ci_written := ci_written c || has_wdone ws || has_wlate ws;
                        ci_rets := ci_rets c; ci_errs := ci_errs c;
                        ci_done := match r with PPending | PAlready => ci_done c | _ => Some r end;
                        ci_bad := ci_bad c || negb ok |} in
